@@ -24,6 +24,8 @@ AlphaNum    == {"1", "0", ".", "e", "E", "x", "'", "s", "@", "-", "+", " ", "_",
 AlphaWs     == {"x", " ", TAB, CR, NL, "|", "!", ";", "'", "n", "&", "s"}                \* blanks, line ends, 'n'
 AlphaKw     == {"a", "i", "s", "t", "n", "o", "'", "A", "I", "%", " ", NL, "r", "e"}     \* short keywords in any case
 
+AlphaApos   == {"x", "s", "r", "e", "'", " "}                                            \* contractions followed by stray apostrophes
+
 AlphaAll    == AlphaCore \cup AlphaMulti \cup AlphaUni \cup AlphaNum \cup AlphaWs \cup AlphaKw \cup {"&", "*", "/", ">", "!", "?", ":", "[", "{"}
 
 (* token soup: one fragment per token class the parser dispatches on (each ends in a blank unless it is a suffix) *)
